@@ -23,7 +23,10 @@
    a new registrant                                       QNew ttl
    SETNX path "__aaron__" ttl: false -> ErrKeyExists      QReg i
    ticker: EXPIRE path ttl (error only if the call        QTick i
-     itself fails: never in the model)
+     itself fails: never in the model).  go-redis
+     v8 Expire sends whole seconds (formatSec: a
+     duration in (0,1s) becomes 1, otherwise it is
+     truncated), SetNX sends exact milliseconds
    stop(): cancel() -> ctx.Done() -> DEL path; close      QStop i
    the clock advances; keys past their TTL disappear      QTime d
 
@@ -141,6 +144,10 @@ Inductive slabel :=
 | QStop (i : nat)
 | QTime (d : Z).
 
+(* go-redis formatSec, in milliseconds *)
+Definition refresh_ms (ttl : Z) : Z :=
+  if Z.ltb 0 ttl && Z.ltb ttl 1000 then 1000 else Z.quot ttl 1000 * 1000.
+
 Definition swith (s : ssys) (i : nat) (kv : sstore) (g : sreg) : option ssys :=
   Some (mkSS kv (upd i g (ss_rs s))).
 Definition s_can_register (p : spc) : bool :=
@@ -164,7 +171,7 @@ Definition sstep (s : ssys) (l : slabel) : option ssys :=
       match nth_error (ss_rs s) i with
       | Some g =>
           match q_pc g with
-          | SActive => swith s i (snd (r_expire ueq kv tt (q_ttl g))) g
+          | SActive => swith s i (snd (r_expire ueq kv tt (refresh_ms (q_ttl g)))) g
           | _ => None
           end
       | None => None
@@ -278,7 +285,8 @@ Definition s_obs (s : ssys) (r : mres) (closed : bool) : obs :=
   mkObs r (r_exists ueq (ss_kv s) tt) None
         (match r_ttl ueq (ss_kv s) tt with Some (Some t) => t | Some None => (-1) | None => (-2) end)
         (if closed then s_closed_flags s else []).
-Definition max_ttl (s : ssys) : Z := fold_left (fun m g => Z.max m (q_ttl g)) (ss_rs s) 0.
+Definition max_ttl (s : ssys) : Z :=
+  fold_left (fun m g => Z.max m (Z.max (q_ttl g) (refresh_ms (q_ttl g)))) (ss_rs s) 0.
 
 Definition s_mop (s : ssys) (m : mop) : ssys * obs :=
   match m with
